@@ -355,6 +355,50 @@ def run_trace(ck, rng, quick):
     ck.count("trace_scripts", len(scripts))
 
 
+def run_capacity(ck, rng, quick):
+    """capacity clause at server level: a server created for N event entries retains at least the N most recent equal-size
+    events buffered while no client is connected -- in the single-group AND the multiple-groups mode, whatever the size of
+    the high-priority queue"""
+    from props import c03
+    h = c07.harness()
+    scripts, meta = [], {}
+    for i in range(16 if quick else 200):
+        mode = rng.choice([0, 2])
+        N = rng.choice([2, 3, 5, 10])
+        M = rng.choice([1, 2, 20, N])
+        size = rng.choice([0, 40, 200, 237])
+        total = N + rng.choice([0, 1, 3, N])
+        lines = ["cfg k=12 w=8 mode=%d lowq=%d highq=%d handlers=64" % (mode, N, M)] + (["group -"] if mode == 2 else []) + ["start"]
+        for e in range(1, total + 1):
+            lines.append("enq " + c03.ev_asdu(e, size).hex())
+        lines += ["connect c0 10.0.0.1:1000", "tick", "rx c0 " + apci.STARTDT_ACT.hex(), "tick %d" % 14]
+        for _ in range(total // 12 + 2):
+            lines += ["rxs c0", "tick 14"]
+        sid = "cap%d" % i
+        scripts.append((sid, lines)); meta[sid] = (mode, N, M, size, total)
+    rc = runner.run_batch(h, scripts, timeout=3600)
+    for sid, lines in scripts:
+        mode, N, M, size, total = meta[sid]
+        ck.evaluations += 1
+        o = rc.get(sid, dict(out=[], crash=None))
+        if o["crash"]:
+            ck.fail("input", "crash:%s:%s" % (o["crash"]["kind"], o["crash"]["site"]), "server aborted: %s at %s" % (o["crash"]["kind"], o["crash"]["site"]), {"script": lines, "stderr": o["crash"]["text"]})
+            continue
+        data = b"".join(bytes.fromhex(l.split()[2]) for l in o["out"] if l.startswith("tx c0 "))
+        frames, _, _ = apci.split_stream(data)
+        ids = []
+        for f in frames:
+            a = apci.parse_apdu(f)
+            if a["kind"] == "I" and len(a["asdu"]) >= 8 and a["asdu"][0] == 30:
+                ids.append(a["asdu"][6] | a["asdu"][7] << 8)
+        want = list(range(total - min(N, total) + 1, total + 1))
+        if not all(x in ids for x in want) or ids != sorted(ids) or (ids and ids != list(range(ids[0], total + 1))):
+            ck.fail("input", "oracle:capacity:mode%d" % mode, "server created for %d event entries (high-priority queue %d, mode %d): %d equal-size events of %d octets buffered without a client, then transmitted %s; the %d most recent %s must all be retained, in order" % (
+                N, M, mode, total, size + 9, ids, min(N, total), want), {"script": lines, "observed": [l[:100] for l in o["out"] if l.startswith("tx c0")][:6]})
+        ck.nontriv(("cap", mode, N, M, size, total))
+    ck.count("capacity_scripts", len(scripts))
+
+
 def run(ck):
     quick = ck.tier == "quick"
     rng = core.Rng(ck.seed)
@@ -376,6 +420,7 @@ def run(ck):
         ck.fail("correspondence", "model-build", "extracted model does not build: " + str(e)[:300], {"theorem": "extraction"})
     run_unit(ck, h, m, rng, quick)
     run_trace(ck, rng, quick)
+    run_capacity(ck, rng, quick)
     ck.extra["exhaustive"] = False
 
 
